@@ -1642,6 +1642,8 @@ class Interp:
         return result
 
     def ex_Call(self, e, frame):
+        if isinstance(e.func, ast.Name) and e.func.id == "super" and not e.args:
+            return self.domain.make_super(self, frame)
         f = self.eval(e.func, frame)
         args = []
         for a in e.args:
@@ -1658,9 +1660,6 @@ class Interp:
                 kwargs.update(d)
             else:
                 kwargs[k.arg] = self.eval(k.value, frame)
-        # super()
-        if isinstance(e.func, ast.Name) and e.func.id == "super" and not args:
-            return self.domain.make_super(self, frame)
         return self.call(f, args, kwargs)
 
     def ex_Subscript(self, e, frame):
